@@ -485,9 +485,20 @@ func Tree(t *rapid.T, o TreeOpts, depth int, label string) *model.Node {
 	case c == 0:
 		n := model.Obj()
 		cnt := rapid.IntRange(0, 3).Draw(t, label+"nk")
+		wide := depth > 0 && rapid.IntRange(0, 29).Draw(t, label+"wideobj") == 0
+		if wide {
+			// now and then an object of many properties (index structures, buffers and lists change their
+			// behaviour at 8, 16, 32, 64 entries)
+			cnt = rapid.SampledFrom([]int{8, 9, 10, 16, 17, 33, 65}).Draw(t, label+"widen")
+		}
 		used := map[string]bool{}
 		for i := 0; i < cnt; i++ {
 			k := rapid.SampledFrom(keyPool).Draw(t, label+"key")
+			if wide {
+				k = fmt.Sprintf("w%02d", i)
+				n.Add(k, Scalar(t, o.Scalar, fmt.Sprintf("%s.w%d", label, i%3)))
+				continue
+			}
 			if used[k] {
 				continue
 			}
@@ -513,8 +524,18 @@ func Tree(t *rapid.T, o TreeOpts, depth int, label string) *model.Node {
 	case c == 1:
 		n := model.Arr()
 		cnt := rapid.IntRange(0, 3).Draw(t, label+"na")
+		if depth > 0 && rapid.IntRange(0, 29).Draw(t, label+"widearr") == 0 {
+			cnt = rapid.SampledFrom([]int{8, 9, 16, 17, 33, 65}).Draw(t, label+"widean")
+			for i := 0; i < cnt; i++ {
+				n.Item(Scalar(t, o.Scalar, fmt.Sprintf("%s[w%d]", label, i%3)))
+			}
+			cnt = -1 // (no item-count rules drawn below for these)
+		}
 		for i := 0; i < cnt; i++ {
 			n.Item(Tree(t, o, depth-1, fmt.Sprintf("%s[%d]", label, i)))
+		}
+		if cnt < 0 {
+			return n
 		}
 		if cnt == 0 && rapid.IntRange(0, 3).Draw(t, label+"emptyor") == 0 {
 			n.Rules = append(n.Rules, containerOr(t, "array", o.Scalar.Satisfied, label))
